@@ -46,10 +46,11 @@
    can also be defended from the GFA2 text, which never defines "between":
      - cand: the implied edge may be looked for among ALL E lines joining the
        two oriented segments (gfapy) instead of among the dovetails only;
-     - free: an E line that is not a dovetail written from its exit segment to
+     - dir: an E line that is not a dovetail written from its exit segment to
        its entry segment (containment, internal alignment, or a dovetail whose
        positions say sid2 -> sid1) has no geometry that agrees with the order
-       of its two segment fields; either direction of travel is accepted for it.
+       of its two segment fields; the written direction, the direction of the
+       positions (where they give one), or either direction are accepted for it.
        For a dovetail written sid1(suffix) -> sid2(prefix) the syntax and the
        geometry agree, and only that direction is a walk;
      - walkrule: a nested path may be spliced as its captured walk instead of
@@ -103,13 +104,21 @@ Canonical(e) ==
   /\ IsDovetail(e)
   /\ Oriented(Kind(e.num[1], e.num[2], e.num[3], e.num[4]), e.refs[1].o) = "sfx"
 
-Strict  == [cand |-> {"dovetail"}, free |-> FALSE, walkrule |-> FALSE]
-Relaxed == [cand |-> {"dovetail", "all"}, free |-> TRUE, walkrule |-> TRUE]
+Strict  == [cand |-> {"dovetail"}, dir |-> "syn", walkrule |-> FALSE]
+Relaxed(dir) == [cand |-> {"dovetail", "all"}, dir |-> dir, walkrule |-> TRUE]
 
-\* the <<from, to>> pairs of oriented segments that traversing e as e^d joins
+\* the <<from, to>> pairs of oriented segments that traversing e as e^d joins.
+\*   dir = "syn"  the direction written on the E line (sid1 -> sid2)
+\*   dir = "geo"  the direction the positions give to a dovetail (exit segment ->
+\*                entry segment); none for other alignments: both ways
+\*   dir = "free" both ways whenever writing and positions do not agree
+\* For a dovetail written exit -> entry all three coincide.
 Travs(e, d, R) ==
-  LET b == <<EFrom(e, d), ETo(e, d)>> IN
-  IF R.free /\ ~Canonical(e) THEN {b, <<b[2], b[1]>>} ELSE {b}
+  LET b == <<EFrom(e, d), ETo(e, d)>>
+      r == <<b[2], b[1]>> IN
+  IF R.dir = "syn" \/ Canonical(e) THEN {b}
+  ELSE IF R.dir = "geo" /\ IsDovetail(e) THEN {r}
+  ELSE {b, r}
 \* <<index of an E line, orientation>> that lead from x to y
 Cands(D, R, mode, x, y) ==
   {p \in EdgeIdxOf(D) \X {"+", "-"} :
@@ -143,16 +152,16 @@ PushSeg(D, R, s, x) ==
 \* the walk sub (of one item) after the walk of s; wr: the item is a nested path and
 \* the reading allows to splice it as a walk (its end segments count as listed)
 Splice(D, R, wr, s, sub) ==
-  IF s.w = <<>> THEN {sub}
+  LET ends == IF Len(sub.w) = 1 THEN {FALSE} ELSE {sub.pe} \cup (IF wr THEN {FALSE} ELSE {})
+      begs == IF Len(sub.w) = 1 THEN {FALSE} ELSE {sub.ps} \cup (IF wr THEN {FALSE} ELSE {}) IN
+  IF s.w = <<>> THEN {Good(sub.w, b, e) : b \in begs, e \in ends}
   ELSE
     LET last == s.w[Len(s.w)]
         first ==
           IF sub.ps
           THEN (IF last = sub.w[1] THEN {s} ELSE {Err("not-contiguous")})
                \cup (IF wr /\ ~s.pe THEN PushSeg(D, R, s, sub.w[1]) ELSE {})
-          ELSE PushSeg(D, R, s, sub.w[1])
-        ends == IF Len(sub.w) = 1 THEN {FALSE}
-                ELSE {sub.pe} \cup (IF wr THEN {FALSE} ELSE {}) IN
+          ELSE PushSeg(D, R, s, sub.w[1]) IN
     UNION {IF ~t.ok THEN {t}
            ELSE IF Len(sub.w) = 1 THEN {t}
            ELSE {Good(t.w \o Tail(sub.w), t.ps, e) : e \in ends}
@@ -180,9 +189,8 @@ WalksOf(D, R, items, stack) == FoldItems(D, R, {Good(<<>>, FALSE, FALSE)}, items
 
 \* every outcome the reading R allows for the ordered group named o
 PathOutcomes(D, R, o) == WalksOf(D, R, LineNamed(D, o).refs, {o})
-\* every outcome some defensible reading allows (the direction of an edge without
-\* agreeing geometry is either the written one throughout, or free)
-Outcomes(D, o) == PathOutcomes(D, Relaxed, o) \cup PathOutcomes(D, [Relaxed EXCEPT !.free = FALSE], o)
+\* every outcome some defensible reading allows
+Outcomes(D, o) == UNION {PathOutcomes(D, Relaxed(dir), o) : dir \in {"syn", "geo", "free"}}
 
 \* the strict answer.  (Its outcomes differ at most in the orientation given to
 \* a supplied hairpin edge, which joins x to y read either way: any of them.)
